@@ -1,6 +1,7 @@
 """Rules for the quantum-number helpers of qnumber.py that every sparsity rule takes for granted: the leg engine types
 `qnumber_flatten([a, b])` as "a varies slowest", the block rules read `is_qsparse` as the library's own check."""
 import ast
+from ..defuse import before as _before
 
 from ..loader import norm, AnalysisError
 from .common import where
@@ -49,7 +50,7 @@ def qnumber_rules(chk, repo, rid):
             T, v = asg[0].targets[0].id, loops[0].target.id
             it = norm(loops[0].iter)
             elem = norm(c.args[1])
-            init = [s for s in fi.node.body if isinstance(s, ast.Assign) and norm(s.targets[0]) == T and s.lineno < loops[0].lineno]
+            init = [s for s in fi.node.body if isinstance(s, ast.Assign) and norm(s.targets[0]) == T and _before(fi.node, s, loops[0])]
             first_ok = len(init) == 1 and norm(init[0].value) == f'{p}[0]'
             order_ok = norm(c.args[0]) == T
             cover_ok = (it == f'range(1, len({p}))' and elem == f'{p}[{v}]') or (it == f'{p}[1:]' and elem == v)
